@@ -1,4 +1,5 @@
 import Posmint.Model.ChainSpec
+import Posmint.Lemmas.ChainTouch
 /-!
 Helper lemmas for C08 (the sliding window as a ring buffer): association-list lookups, the
 missed-bit array, frame lemmas for `slash` / `jail`, and the list facts about `lastW` / `slotOf`.
